@@ -125,6 +125,9 @@ package git
 //@ func (OID).MarshalJSON
 //@   pure
 //@   ensures result1 == nil && len(result0) == 42
+// a JSON string: 40 bytes written by hex.Encode
+// between quotation marks
+//@   ensures result0[0] == 34 && result0[41] == 34
 
 // Per header line (in order): a `parent` line appends exactly the id its value
 // spells, a `tree` line sets the tree (a second one is an error), every other
